@@ -389,3 +389,86 @@ func walkListsPtr(list *[]*wnode, f func(list *[]*wnode)) {
 		}
 	}
 }
+
+// DamageRecord applies one drawn storage fault to a valid record: a torn
+// write, a rotten bit, or a structural fault that keeps the enclosing lengths
+// consistent (so that the decoder fails deep inside, not at the first outer
+// length check).
+func DamageRecord(raw []byte, next func(n int) int) ([]byte, string) {
+	if len(raw) < 2 {
+		return raw, "none"
+	}
+	switch next(10) {
+	case 0, 1, 2, 3:
+		return append([]byte(nil), raw[:1+next(len(raw)-1)]...), "torn"
+	case 4, 5, 6:
+		d := append([]byte(nil), raw...)
+		d[next(len(d))] ^= byte(1 << uint(next(8)))
+		return d, "bit flip"
+	default:
+		var all []fault
+		EnumerateStructFaults(raw, false, func(f fault) bool {
+			all = append(all, f)
+			return len(all) < 400
+		})
+		if len(all) == 0 {
+			d := append([]byte(nil), raw...)
+			d[next(len(d))] ^= byte(1 << uint(next(8)))
+			return d, "bit flip"
+		}
+		f := all[next(len(all))]
+		return f.data, f.kind
+	}
+}
+
+// InflateInnerCounts returns the record with the declared count of every
+// counted container below the top level raised by k (the bytes of the
+// containers unchanged, enclosing lengths consistent) and k zero bytes of
+// padding appended. If the record does not parse it is returned unchanged.
+func InflateInnerCounts(a []byte, k int) []byte {
+	var root *wnode
+	if kids, ok := parseMsg(a, 0); ok && len(kids) > 0 {
+		root = &wnode{wt: 2, kids: kids, isMsg: true, noTag: true}
+	} else if es, used, ok := parseEntries(a, 0); ok && used == len(a) && len(es) > 0 {
+		root = &wnode{wt: 3, entries: es, noTag: true}
+	} else {
+		return a
+	}
+	var nodes []*wnode
+	if root.isMsg {
+		for _, nd := range root.kids {
+			// below the top level: containers inside entries of top-level containers, and inside nested messages
+			for _, e := range nd.entries {
+				if e.isMsg {
+					allNodes(e.kids, &nodes)
+				}
+			}
+			if nd.isMsg {
+				allNodes(nd.kids, &nodes)
+			}
+		}
+	} else {
+		for _, e := range root.entries {
+			if e.isMsg {
+				allNodes(e.kids, &nodes)
+			}
+		}
+	}
+	n := 0
+	for _, nd := range nodes {
+		if nd.entries != nil {
+			nd.cntDelta = k
+			n++
+		}
+	}
+	if n == 0 {
+		return a
+	}
+	var out []byte
+	if root.isMsg {
+		out = writeMsg(nil, root.kids)
+	} else {
+		out = writeEntries(nil, root)
+	}
+	return append(out, make([]byte, k)...)
+}
